@@ -6,6 +6,7 @@ import CircBuf.Lemmas.Tie.Truncate
 import CircBuf.Lemmas.Tie.Remove
 import CircBuf.Lemmas.Tie.IterTie
 import CircBuf.Lemmas.Tie.DrainTie
+import CircBuf.Lemmas.Tie.Fill
 /-!
   The tie between the *translated* core (`Generated/Core.lean`, regenerated from `/repo/src/lib.rs` by
   `/verif/translate/t3_core.py` on every run) and the hand-written model (`Model.lean`) the theorems
